@@ -155,9 +155,49 @@ def era(us):
 CLONE_MODES = ["pickle", "copy", "deepcopy", "pickle0", "pickle2", "twice"]
 
 
-def clone_modes(none_share=3):
-    """Which way a drawn Date (or an object holding Dates) travels before it is used."""
-    return st.sampled_from(["none"] * none_share + ["pickle", "copy", "deepcopy", "pickle", "deepcopy", "pickle0", "pickle2", "twice"])
+ARITH = ["arith-day", "arith-day", "arith-round", "arith-chain"]
+
+
+def clone_modes(none_share=3, arith=False):
+    """Which way a drawn Date (or an object holding Dates) travels before it is used.  arith=True adds dates that are
+    the RESULT of date arithmetic (see `clone`)."""
+    return st.sampled_from(["none"] * none_share + ["pickle", "copy", "deepcopy", "pickle", "deepcopy", "pickle0", "pickle2", "twice"]
+                           + (ARITH if arith else []))
+
+
+def _by_arithmetic(d, how):
+    """The same instant under the same label, obtained by date arithmetic instead of construction (only for Date
+    objects labelled in a scale in which arithmetic is exact: TAI, TT, GPS, and UTC within one UTC day):
+    arith-day   (d - t) + t where d - t lies in the first 70 s of d's calendar day IN ITS OWN SCALE (for TAI / TT /
+                GPS that is still the previous UTC day: the day-tabulated Earth-orientation data differ);
+    arith-round (d + 3 h) - 3 h (not for UTC: a leap second may lie in between);
+    arith-chain d - 40 x 1 min, then 40 additions of 1 min (not for UTC)."""
+    from datetime import timedelta
+
+    name = getattr(getattr(d, "scale", None), "name", None)
+    if name not in ("TAI", "TT", "GPS", "UTC") or not hasattr(d, "_s"):
+        return d
+    if how == "arith-day":
+        sod_us = int(round(d._s * 1e6))
+        w_us = (sod_us * 7919) % 70_000_000
+        if sod_us <= w_us:
+            return d
+        t = timedelta(microseconds=sod_us - w_us)
+        early = d - t
+        # the early date is CONSTRUCTED (its own table lookups), the date handed on is derived from it
+        return type(d)(early.datetime, scale=name) + t
+    if name == "UTC":
+        return d
+    if how == "arith-round":
+        t = timedelta(hours=3)
+        late = d + t
+        return type(d)(late.datetime, scale=name) - t
+    t = timedelta(minutes=1)
+    out = d - 40 * t
+    out = type(d)(out.datetime, scale=name)
+    for _ in range(40):
+        out = out + t
+    return out
 
 
 def clone(obj, how):
@@ -167,6 +207,8 @@ def clone(obj, how):
 
     if how in (None, "none"):
         return obj
+    if how in ARITH:
+        return _by_arithmetic(obj, how)
     if how == "pickle":
         return pickle.loads(pickle.dumps(obj))
     if how == "pickle0":
